@@ -184,6 +184,43 @@ func (s *Sim) ReplaceBlock(n uint64, move bool) (old, nb *Block) {
 	return old, nb
 }
 
+// RemineLater is a reorg that moves tx from its block to a block d numbers higher: every canonical block from the
+// old inclusion upward is replaced (their other transactions move along), tx is included in the new block at
+// old+d, and the node pushes the removed log of the old inclusion and the log of the new one - in either order, as
+// nothing orders the two notifications. Lock held (call inside Mutate).
+func (s *Sim) RemineLater(tx *Tx, d uint64, newFirst bool) (old, nb *Block) {
+	old = tx.Block
+	if old == nil {
+		return nil, nil
+	}
+	n := old.Number
+	top := s.Head
+	for k := range s.canon {
+		if k > top {
+			top = k
+		}
+	}
+	tx.Block = nil
+	for k := n; k <= top; k++ {
+		if _, ok := s.canon[k]; ok {
+			s.ReplaceBlock(k, true)
+		}
+	}
+	nb = s.blockAt(n + d)
+	tx.Block = nb
+	if newFirst {
+		s.pushLogs(tx, nb, false)
+		s.pushLogs(tx, old, true)
+	} else {
+		s.pushLogs(tx, old, true)
+		s.pushLogs(tx, nb, false)
+	}
+	if n+d > s.Head {
+		s.Head = n + d
+	}
+	return old, nb
+}
+
 func (s *Sim) logsOf(tx *Tx, b *Block, removed bool) []*types.Log {
 	var out []*types.Log
 	for i, l := range tx.Logs {
